@@ -33,7 +33,7 @@ import (
 func (s *Server) Set(ctx context.Context, req *gnmi.SetRequest) (*gnmi.SetResponse, error) {
 	log.Infof("Received gNMI Set Request %+v", req)
 	var userName string
-	if md := metautils.ExtractIncoming(ctx); md != nil {
+	if md := metautils.ExtractIncoming(ctx); utils.HasIdentity(md) {
 		log.Infof("gNMI Set() called by '%s (%s) (%s)'. Groups [%v]",
 			md.Get("preferred_username"), md.Get("name"), md.Get("email"), md.Get("groups"))
 		userName = md.Get("preferred_username")
